@@ -29,7 +29,7 @@ META = {
     "assumptions": [
         "ORACLE, not proved: each codemod's semgrep pattern and its libcst transformer describe the same construct and "
         "pattern-not excludes the fixed form — decided per run by search over the generated spellings only",
-        "a flagged location counts as rewritten when the report has a change entry on one of its lines and the file text changed",
+        "a flagged location counts as rewritten when the report has a change entry on one of its lines and the diff touches one of its lines",
         "declined shapes (re-bound names, several with-items, mixed %/+ logging arguments) are tagged by the generator",
     ],
 }
@@ -213,32 +213,42 @@ def run_short_id(ctx, codemods):
 # ------------------------------------------------------------------------------------------------
 # name -> dict(variants=[(header, expression-or-statement)], nested=(header, stmt)|None, declined=[(header, stmt)], stmt=bool)
 TRIGGERS = {
-    "requests-verify": {"variants": [("import requests\n", 'requests.get("u", verify=False)'), ("import requests as rq\n", 'rq.post("u", verify=False)'),
+    "requests-verify": {"hetero": [('import requests\n', 'requests.get("u", timeout=3, verify=False)'), ('import requests\n', 'requests.post("u", verify=False, data=d)')],
+        "variants": [("import requests\n", 'requests.get("u", verify=False)'), ("import requests as rq\n", 'rq.post("u", verify=False)'),
                                      ("from requests import get\n", 'get("u", verify=False)'), ("import httpx\n", 'httpx.get("u", verify=False)')],
                         "nested": ("import requests\n", 'requests.get(requests.get("u", verify=False).text, verify=False)')},
-    "add-requests-timeouts": {"variants": [("import requests\n", 'requests.get("u")'), ("import requests as rq\n", 'rq.post("u", data=d)'),
+    "add-requests-timeouts": {"hetero": [('import requests\n', 'requests.get("u", verify=True)'), ('import requests\n', 'requests.post("u", data=d, headers=h)')],
+        "variants": [("import requests\n", 'requests.get("u")'), ("import requests as rq\n", 'rq.post("u", data=d)'),
                                            ("from requests import get\n", 'get("u")')],
                               "nested": ("import requests\n", 'requests.get(requests.get("u").text)')},
     "secure-random": {"variants": [("import random\n", "random.random()"), ("import random as r\n", "r.randint(0, 9)"),
                                    ("from random import random\n", "random()"), ("import random\n", "random.choice(xs)")]},
-    "harden-pyyaml": {"variants": [("import yaml\n", "yaml.load(d)"), ("import yaml\n", "yaml.load(d, Loader=yaml.Loader)"),
+    "harden-pyyaml": {"hetero": [('import yaml\n', 'yaml.load(d, Loader=yaml.UnsafeLoader)'), ('import yaml\n', 'yaml.load(d, yaml.Loader)')],
+        "variants": [("import yaml\n", "yaml.load(d)"), ("import yaml\n", "yaml.load(d, Loader=yaml.Loader)"),
                                    ("import yaml as y\n", "y.load(d)"), ("from yaml import load\n", "load(d)")],
                       "nested": ("import yaml\n", "yaml.load(yaml.load(d))")},
-    "harden-ruamel": {"variants": [("from ruamel.yaml import YAML\n", 'YAML(typ="unsafe")'), ("import ruamel.yaml\n", 'ruamel.yaml.YAML(typ="base")'),
+    "harden-ruamel": {"hetero": [('from ruamel.yaml import YAML\n', 'YAML(typ="unsafe", pure=True)'), ('from ruamel.yaml import YAML\n', 'YAML(typ="base")')],
+        "variants": [("from ruamel.yaml import YAML\n", 'YAML(typ="unsafe")'), ("import ruamel.yaml\n", 'ruamel.yaml.YAML(typ="base")'),
                                    ("from ruamel import yaml\n", 'yaml.YAML(typ="unsafe")')]},
-    "jwt-decode-verify": {"variants": [("import jwt\n", 'jwt.decode(t, "k", algorithms=["HS256"], verify=False)'),
+    "jwt-decode-verify": {"hetero": [('import jwt\n', 'jwt.decode(t, "k", algorithms=["HS256"], options={"verify_signature": False, "verify_exp": False})'), ('import jwt\n', 'jwt.decode(t, "k", algorithms=["HS256"], verify=False, options={"verify_exp": True})')],
+        "variants": [("import jwt\n", 'jwt.decode(t, "k", algorithms=["HS256"], verify=False)'),
                                        ("import jwt\n", 'jwt.decode(t, "k", algorithms=["HS256"], options={"verify_signature": False})'),
                                        ("from jwt import decode\n", 'decode(t, "k", algorithms=["HS256"], verify=False)')]},
     "limit-readline": {"variants": [("f = open('x')\n", "f.readline()"), ("f = open('x')\ng = open('y')\n", "g.readline()")]},
-    "safe-lxml-parser-defaults": {"variants": [("import lxml.etree\n", "lxml.etree.XMLParser()"), ("from lxml import etree\n", "etree.XMLParser()"),
+    "safe-lxml-parser-defaults": {"hetero": [('import lxml.etree\n', 'lxml.etree.XMLParser(resolve_entities=True)'), ('import lxml.etree\n', 'lxml.etree.XMLParser(no_network=False, dtd_validation=True)'), ('from lxml import etree\n', 'etree.XMLParser(resolve_entities=True, no_network=False)')],
+        "variants": [("import lxml.etree\n", "lxml.etree.XMLParser()"), ("from lxml import etree\n", "etree.XMLParser()"),
                                                ("from lxml.etree import XMLParser\n", "XMLParser()")]},
-    "safe-lxml-parsing": {"variants": [("import lxml.etree\n", 'lxml.etree.parse("f.xml")'), ("from lxml import etree\n", 'etree.fromstring("<a/>")')]},
-    "sandbox-process-creation": {"variants": [("import subprocess\n", "subprocess.run(cmd)"), ("import subprocess\n", "subprocess.Popen(cmd)"),
+    "safe-lxml-parsing": {"hetero": [('import lxml.etree\n', 'lxml.etree.parse("f.xml", parser=None)'), ('import lxml.etree\n', 'lxml.etree.fromstring("<a/>")')],
+        "variants": [("import lxml.etree\n", 'lxml.etree.parse("f.xml")'), ("from lxml import etree\n", 'etree.fromstring("<a/>")')]},
+    "sandbox-process-creation": {"hetero": [('import subprocess\n', 'subprocess.run(cmd, shell=True)'), ('import subprocess\n', 'subprocess.run(cmd, check=True, timeout=3)')],
+        "variants": [("import subprocess\n", "subprocess.run(cmd)"), ("import subprocess\n", "subprocess.Popen(cmd)"),
                                               ("from subprocess import run\n", "run(cmd)"), ("import subprocess as sp\n", "sp.call(cmd)")]},
     "url-sandbox": {"variants": [("import requests\n", "requests.get(url)"), ("from requests import get\n", "get(url)")]},
-    "upgrade-sslcontext-tls": {"variants": [("import ssl\n", "ssl.SSLContext(ssl.PROTOCOL_SSLv2)"), ("import ssl\n", "ssl.SSLContext(protocol=ssl.PROTOCOL_TLSv1)"),
+    "upgrade-sslcontext-tls": {"hetero": [('import ssl\n', 'ssl.SSLContext(protocol=ssl.PROTOCOL_SSLv3)'), ('import ssl\n', 'ssl.SSLContext()')],
+        "variants": [("import ssl\n", "ssl.SSLContext(ssl.PROTOCOL_SSLv2)"), ("import ssl\n", "ssl.SSLContext(protocol=ssl.PROTOCOL_TLSv1)"),
                                             ("from ssl import SSLContext, PROTOCOL_SSLv3\n", "SSLContext(PROTOCOL_SSLv3)")]},
-    "enable-jinja2-autoescape": {"variants": [("from jinja2 import Environment\n", "Environment()"), ("import jinja2\n", "jinja2.Environment(autoescape=False)"),
+    "enable-jinja2-autoescape": {"hetero": [('from jinja2 import Environment\n', 'Environment(autoescape=False)'), ('from jinja2 import Environment\n', 'Environment(loader=ldr)'), ('from jinja2 import Environment\n', 'Environment(loader=ldr, autoescape=False)')],
+        "variants": [("from jinja2 import Environment\n", "Environment()"), ("import jinja2\n", "jinja2.Environment(autoescape=False)"),
                                               ("import jinja2 as j\n", "j.Environment()")]},
     "fix-deprecated-logging-warn": {"variants": [("import logging\n", 'logging.warn("m")'), ("import logging\nlog = logging.getLogger('a')\n", 'log.warn("m")'),
                                                  ("from logging import warn\n", 'warn("m")')]},
@@ -247,7 +257,8 @@ TRIGGERS = {
                                   ("import logging\nlog = logging.getLogger('a')\n", 'log.error("a %s" % x)')],
                      "declined": [("import logging\n", 'logging.info("a %s" % x + y)')]},
     "fix-hasattr-call": {"variants": [("", 'hasattr(obj, "__call__")'), ("", 'hasattr(other.attr, "__call__")')]},
-    "secure-flask-cookie": {"variants": [("import flask\nresp = flask.make_response('x')\n", 'resp.set_cookie("k", "v")'),
+    "secure-flask-cookie": {"hetero": [("import flask\nresp = flask.make_response('x')\n", 'resp.set_cookie("k", "v", secure=False, httponly=False)'), ("import flask\nresp = flask.make_response('x')\n", 'resp.set_cookie("k", "v", samesite=None)')],
+        "variants": [("import flask\nresp = flask.make_response('x')\n", 'resp.set_cookie("k", "v")'),
                                          ("from flask import make_response\nresp = make_response('x')\n", 'resp.set_cookie("k", "v", secure=False)')]},
     "bad-lock-with-statement": {"stmt": True, "variants": [("import threading\n", "with threading.Lock():\n    pass"),
                                                            ("from threading import Lock\n", "with Lock():\n    pass")],
@@ -353,6 +364,24 @@ def build_search_project(rng, spec):
                 break
     if spec.get("nested"):
         add(spec["nested"][0], f"v = {spec['nested'][1]}", "nested")
+    # heterogeneous spellings: a site that already spells out some of the keywords the codemod sets (with other values),
+    # alone in files that sort first, and mixed with plain sites in one file, in both orders
+    hetero = spec.get("hetero", [])
+    for hi, (header, e) in enumerate(hetero):
+        files[f"pkg/a{hi:02d}_hetero.py"] = {"src": header + "\n" + f"v = {e}\n", "tag": f"hetero{hi}_alone", "declined": False}
+    if not is_stmt:
+        allv = list(hetero) + list(variants)
+        for order, seq in (("fwd", allv), ("rev", allv[::-1])):
+            hdr, exprs = "", []
+            for header, e in seq:
+                m = merge_headers(hdr, header) if hdr else header
+                if m is None or e in exprs:
+                    continue
+                hdr = m
+                exprs.append(e)
+            if len(exprs) >= 2:
+                body = "".join(f"s{i} = {e}\n" + ("\n" if rng.random() < 0.5 else "") for i, e in enumerate(exprs))
+                add(hdr, body, f"mixed_{order}")
     for di, (header, e) in enumerate(spec.get("declined", [])):
         add(header, e if is_stmt else f"v = {e}", f"declined{di}", declined=True)
     return files
@@ -434,14 +463,24 @@ def changed_new_lines(old: str, new: str):
     return out
 
 
-def classify_not_rewritten(cm, info):
+def classify_not_rewritten(cm, info, L=None):
     """narrow classes for flagged-but-untouched shapes that the property does not list as declined"""
     import re
     if cm._internal_name == "lazy-logging":
-        m = re.search(r'\(\s*"[^"%]*" \+ (\w+)\s*\)', info["src"])
+        text = info["src"] if L is None else "\n".join(info["src"].splitlines()[L[0] - 1:L[2]])
+        m = re.search(r'\(\s*"[^"%]*" \+ (\w+)\s*\)', text)
         if m and not re.search(rf"^{m.group(1)} = ['\"]", info["src"], re.M):
             return "kf_lazy_logging_plus_untyped_operand"
     return "kf_flagged_not_rewritten"
+
+
+def changed_old_lines(old: str, new: str):
+    a, b = old.splitlines(), new.splitlines()
+    out = set()
+    for tag, i1, i2, j1, j2 in difflib.SequenceMatcher(None, a, b, autojunk=False).get_opcodes():
+        if tag in ("replace", "delete"):
+            out.update(range(i1 + 1, i2 + 1))
+    return out
 
 
 def contains(outer, inner):
@@ -451,7 +490,8 @@ def contains(outer, inner):
 def run_search(ctx, codemods):
     quick = ctx.quick()
     by_name = {c._internal_name: c for c in codemods}
-    names = [n for n in (QUICK if quick and not getattr(ctx, "deep", False) else TRIGGERS) if n in by_name]
+    # every codemod with a trigger table on both tiers (the detector runs are batched); quick drops two contexts per variant
+    names = [n for n in TRIGGERS if n in by_name]
     missing = [n for n in TRIGGERS if n not in by_name]
     if missing:
         ctx.notes.append(f"trigger table names not in the registry as rule-detected codemods: {missing}")
@@ -497,10 +537,12 @@ def run_search(ctx, codemods):
                 nested_seen.add(cm._internal_name)
             # (a) flagged and not a declined shape => rewritten at that location, or the file is listed as failed
             if before and not info["declined"] and fn not in failed:
+                old_touched = changed_old_lines(info["src"], new)
                 for L in before:
-                    hit = changed and any(L[0] <= ln <= L[2] for ln in changes.get(fn, []))
+                    hit = changed and any(L[0] <= ln <= L[2] for ln in changes.get(fn, [])) and \
+                        any(L[0] <= ln <= L[2] for ln in old_touched)
                     if not hit:
-                        ctx.violation(classify_not_rewritten(cm, info),
+                        ctx.violation(classify_not_rewritten(cm, info, L),
                                       f"{cm.id} {fn}: the codemod's own rule flags {L} in\n{info['src']}\nbut the run neither rewrote that "
                                       f"location (changes at lines {changes.get(fn, [])}, file changed={changed}) nor listed the file as failed",
                                       {**payload, "expected": "a change entry on the flagged lines or the file in failedFiles"})
